@@ -17,7 +17,8 @@ var (
 	// 0.1 is not a dyadic rational: sums of squares of it do not cancel exactly, which exposes
 	// numerically unstable rewrites (variance as E[x^2]-E[x]^2) on flat runs
 	sigmaPlain    = []float64{1, 0, 0.1, 2, -3, 5}
-	sigmaPlainPos = []float64{1, 0.1, 2, 3, 6}
+	// 1.0001 next to 1: a quiet window (relative variation 1e-4) for tolerance guards that mix units
+	sigmaPlainPos = []float64{1, 0.1, 1.0001, 2, 3, 6}
 	// bars: O, H, L, C, V with L <= O,C <= H, V >= 0
 	sigmaBars = [][5]float64{
 		{4, 6, 3, 5, 10}, // up bar
